@@ -7,6 +7,21 @@
 #define BUILDING_PARSEC 1
 #endif
 #include "parsec/parsec_config.h"
+#if defined(VF_LIFO_INLINE) && defined(PARSEC_VERIF)
+/* Inline build only: the atomic primitives the header-only LIFO is written with are interposed with delay-injecting
+ * wrappers, so that a delay can also fall AFTER the arguments of a compare-and-swap were evaluated (e.g. item->list_next read
+ * for a pop) and BEFORE the instruction executes, and around the read barrier — places where no source hook can sit.
+ * A delay is always a legal schedule: this cannot make correct code fail. */
+#include "parsec/sys/atomic.h"
+#include "parsec/class/list_item.h"
+#include <sched.h>
+static inline int vf_cas128_delayed(volatile __int128_t *loc, __int128_t o, __int128_t n) { PARSEC_VERIF_YIELD(PARSEC_VERIF_SITE_LIFO); return parsec_atomic_cas_int128(loc, o, n); }
+static inline int vf_casptr_delayed(volatile void *loc, const void *o, const void *n) { PARSEC_VERIF_YIELD(PARSEC_VERIF_SITE_LIFO); return parsec_atomic_cas_ptr(loc, o, n); }
+static inline void vf_rmb_delayed(void) { PARSEC_VERIF_YIELD(PARSEC_VERIF_SITE_LIFO); parsec_atomic_rmb(); PARSEC_VERIF_YIELD(PARSEC_VERIF_SITE_LIFO); }
+#define parsec_atomic_cas_int128(l, o, n) vf_cas128_delayed((l), (o), (n))
+#define parsec_atomic_cas_ptr(l, o, n) vf_casptr_delayed((l), (o), (n))
+#define parsec_atomic_rmb() vf_rmb_delayed()
+#endif
 #include "parsec/class/lifo.h"
 #include "parsec/class/list_item.h"
 #include "kit.h"
